@@ -16,7 +16,7 @@ TABLE: dict[str, dict[str, str]] = {
     "C01": dict(cat="other", tech="form-table extraction (opcode/parameter roles per syntax form) + abstract interpretation of the op-list builders against specified flow graphs + def-use rules on the post-passes; whole compiler (visitors, handlers, post-passes) interpreted from its syntax trees on grammar parse trees: 169 syntactic forms and routine headers vs. the language form table, exhaustive bounded family of schematic programs vs. specified flow graphs by bisimulation",
                 text="Decides for all programs: opcode and parameter order of every condition/header/case/assignment form, the label/jump skeleton every block construct emits for every body-shape class, and the op-removal discipline of the post-passes. Does not decide whole-program behaviour (user label graphs, interplay of passes). Interpreter-based rules decide the enumerated shapes for every outcome of every test, not all programs (DESIGN.md 9.2).",
                 note="Oracle tables under esv/spec written from docs/language_spec.rst and the SSB machine model; CPython ast; the grammar reader esv/engine/g4.py.", ref="§4 C01"),
-    "C02": dict(cat="other", tech="grammar-parsed print templates pushed through the compiler's form model (writer/reader agreement) + dispatch exhaustiveness + edge-attribute conventions + entry preservation; round trip compile -> decompile -> compile with every stage interpreted (parser runtime, graph library and file system modelled) over general, nested and flat program families, flow graphs compared by bisimulation",
+    "C02": dict(cat="other", tech="grammar-parsed print templates pushed through the compiler's form model (writer/reader agreement) + dispatch exhaustiveness + edge-attribute conventions + entry preservation; round trip compile -> decompile -> compile with every stage interpreted (parser runtime, graph library and file system modelled) over general, nested and flat program families, a fixed pseudo-random sample of deeper mixed programs, hand-made routine sets and two exhaustive families of small routines (every routine of up to 3/4 ops over plain, End, Jump, Branch, Call, Return; one Switch with up to three cases and up to three ops behind them), flow graphs compared by bisimulation; both orders of every iterated set of graph elements",
                 text="Decides necessary conditions only: every special opcode is printed in a spelling that compiles back to the same op with equal parameters, dispatch tables are exhaustive, producer/consumer conventions of edge attributes agree, the routine entry vertex is never deleted. The structuring heuristics themselves are not decided. R7 decides behaviour preservation for the enumerated program shapes and for every routine of up to 3 ops (thorough: 4 ops) over plain op / End / Jump / Branch, for all test outcomes; four routines of the 4-op family are recorded as known findings (thorough tier).",
                 note="Same trusted base as C01; the 1 600 lines of graph rewriting are outside any sound static argument in reach.", ref="§4 C02"),
     "C03": dict(cat="other", tech="type-flow and who-may-write rules on the op list (no pseudo-op survives, target appended last, offset sources, table lengths); compile() interpreted on program families and macro projects: offsets unique, jump targets closed, no pseudo op, tables of one length",
